@@ -88,7 +88,7 @@ CHECKS = {
 PENDING_REASON = "check not built yet in this session (planned: Lean model + proof + correspondence, see DESIGN.md work order); not claimed until its check exists"
 
 
-GEN = {"C01": "gen_monitor_shape", "C04": "gen_source_text (pinned text of _partial.py)", "C18": "gen_source_text (pinned text of the YAML constructors)", "C02": "gen_runtime_text (pinned text of the closing code)", "C03": "gen_runtime_text (pinned text of registration and start)",
+GEN = {"C01": "gen_monitor_shape, gen_run_outcome", "C04": "gen_source_text (pinned text of _partial.py)", "C18": "gen_source_text (pinned text of the YAML constructors)", "C02": "gen_runtime_text (pinned text of the closing code)", "C03": "gen_runtime_text (pinned text of registration and start)",
        "C10": "gen_runtime_text (pinned text of the execute path)", "C11": "gen_runtime_text (pinned text of where payloads run)", "C05": "gen_pipeline_walk_shape", "C19": "gen_translator_keys", "C06": "gen_clamp_eq, gen_floor_eq, gen_clamp_demand_eq, gen_write_eq, gen_read_eq, gen_ok_iff, gen_forwarded_in_limits",
        "C07": "gen_shares_uniform, gen_shares_weighted, gen_supply, gen_init, gen_fitness_uniform, gen_fitness_weighted, gen_reads_stored, gen_conservation, gen_share_bounds",
        "C08": "gen_linear_eq, gen_relsupply_eq, gen_switch_select_eq, gen_get_rule_eq, gen_shapes", "C09": "gen_loop_shapes",
